@@ -45,7 +45,8 @@ RECURSIVE DLeq(_, _)
 DLeq(a, b) == a = <<>> \/ a[1] < b[1] \/ (a[1] = b[1] /\ DLeq(Tail(a), Tail(b)))
 DMin(a, b) == IF DLeq(a, b) THEN a ELSE b
 
-ExpectedMode(f) == IF IsSome(f.mode) THEN f.mode.some ELSE IF f.src_exec THEN 33261 ELSE 33188
+\* an explicit mode, else the source file's own type and permission bits (all twelve of them)
+ExpectedMode(f) == IF IsSome(f.mode) THEN f.mode.some ELSE f.src_mode
 ExpectedMtime(f, cfg) == IF IsSome(cfg.source_date) THEN DMin(f.mtime, cfg.source_date.some) ELSE f.mtime
 
 \* does the read-back file entry e match the configured file f ?
